@@ -35,13 +35,13 @@ def generate(tier, rng):
             other = gen.labelled(rng.choice(gen.shapes(rng.choice([1, 2, 3]))), rng, False, base=100)
             labs = gen.tree_labels(t) + gen.tree_labels(other)[:2]
             pairs = [list(p) for p in itertools.product(labs, repeat=2)]
-            yield {"fam": "walk", "trees": [t, other], "pairs": pairs, "cls": rng.choice(["nm", "light"])}
+            yield {"fam": "walk", "trees": [t, other], "pairs": pairs, "cls": rng.choice(["nm", "light", "eq", "falsy"])}
     for _ in range(80 if tier == "quick" else 1000):
         n = rng.randrange(6, 16 if tier == "quick" else 41)
         t = gen.labelled(gen.random_shape(rng, n), rng, True)
         labs = gen.tree_labels(t)
         pairs = [[rng.choice(labs), rng.choice(labs)] for _ in range(30)]
-        yield {"fam": "walk", "trees": [t], "pairs": pairs, "cls": rng.choice(["nm", "light"])}
+        yield {"fam": "walk", "trees": [t], "pairs": pairs, "cls": rng.choice(["nm", "light", "eq", "falsy"])}
 
 
 def nontrivial(case):
